@@ -214,16 +214,23 @@ def run_tables(cfg, counters, violations, samples):
                 pat, meth = chosen[j]
                 name = "r%d" % j
                 routes.append(Route(name, meth, pat, (lambda req, _n=name: Response(payload=_n))))
-            # register one by one or in one call
+            # register one by one or in one call; when one by one, look paths up BETWEEN the registrations (a route
+            # registered later must be found although the same path was looked up - and missed - before)
             if case % 2:
                 router.registerRoutes(routes)
             else:
+                probe = [r.choice(paths) for _ in range(6)]
                 for rt in routes:
+                    for pth in probe:
+                        for meth in ("GET", "POST"):
+                            router.getRoute(meth, pth)
+                    counters.inc("lookups_between_registrations", len(probe) * 2)
                     router.registerRoutes([rt])
+                paths_for_case = probe + [r.choice(paths) for _ in range(6)]
             parsed = [parse_pattern(rt.pattern) for rt in routes]
-            for _ in range(12):
-                path = r.choice(paths)
-                method = r.choice(["GET", "POST", "PUT", "DELETE"])
+            for _k in range(12):
+                path = r.choice(paths) if case % 2 else paths_for_case[_k]
+                method = r.choice(["GET", "POST", "PUT", "DELETE"]) if case % 2 else r.choice(["GET", "POST"])
                 want = None
                 unspec = False
                 for rt, parts in zip(routes, parsed):
@@ -321,7 +328,7 @@ def finish(tier, seed, results):
     m = merge(results)
     inconclusive = []
     need(m["counters"], ["pairs", "ref_match", "ref_nomatch", "bindings_checked", "table_lookups",
-                         "dispatch_404", "dispatch_routed"], inconclusive)
+                         "dispatch_404", "dispatch_routed", "lookups_between_registrations"], inconclusive)
     maxp, maxs = BOUNDS[tier]
     cov = {
         "evaluations": m["evaluations"],
